@@ -697,3 +697,59 @@ def parked_iterators(w, report) -> int:
     finally:
         shutil.rmtree(top, ignore_errors=True)
         shutil.rmtree(d, ignore_errors=True)
+
+MAGICQ = r"""
+import sys, json
+sys.path.insert(0, sys.argv[1])
+import common
+common.import_wcmatch()
+from wcmatch import fnmatch as F, glob as G
+order, outp = sys.argv[2], sys.argv[3]
+pats = ['{a,b}', 'x{1..3}', 'a|b', '~x', '@(a)', '!a', '-a', '//server/sh{a,b}re/f', '//server/sh|re/f', 'c:/{a,b}', 'plain', 'a*', '//?/c:/x|y']
+names = ['BRACE', 'SPLIT', 'GLOBTILDE', 'EXTMATCH', 'NEGATE', 'MINUSNEGATE']
+qs = []
+for mi, mod in enumerate((F, G)):
+    for p in pats:
+        for isb in (False, True):
+            for plat in (0, mod.FORCEWIN, mod.FORCEUNIX):
+                sets = [0] + [getattr(mod, n) for n in names if hasattr(mod, n)] + [mod.BRACE | mod.SPLIT]
+                for fl in sets:
+                    qs.append((mi, p, isb, fl | plat))
+if order == 'rev':
+    qs = qs[::-1]
+elif order == 'plainfirst':
+    qs = sorted(qs, key=lambda q: bin(q[3]).count('1'))
+out = {}
+for mi, p, isb, fl in qs:
+    mod = (F, G)[mi]
+    out[json.dumps([mi, p, isb, fl])] = mod.is_magic(p.encode() if isb else p, flags=fl)
+json.dump(out, open(outp, 'w'))
+"""
+
+
+def is_magic_orders(w, report) -> int:
+    """is_magic answers depend on the arguments only: the same ~2000 questions (fnmatch / glob, str / bytes, drive-shaped and plain patterns, each
+    symbol flag, the three platform words) asked in three different orders in three fresh interpreters give the same answers."""
+    d = tempfile.mkdtemp(prefix='k9m-', dir='/tmp')
+    try:
+        res = {}
+        for order in ('fwd', 'rev', 'plainfirst'):
+            outp = os.path.join(d, order + '.json')
+            r = subprocess.run([common.PY, '-c', MAGICQ, os.path.dirname(os.path.abspath(__file__)), order, outp],
+                               capture_output=True, text=True, timeout=300, env={**os.environ, 'WCMATCH_REPO': common.REPO})
+            if r.returncode != 0:
+                report('is_magic crashed', {'api': 'is_magic', 'order': order, 'stderr': r.stderr[-300:]}, 'answers', 'exception')
+                return 1
+            res[order] = json.load(open(outp))
+        n = 0
+        for k, v in res['fwd'].items():
+            n += 1
+            others = {o: res[o][k] for o in ('rev', 'plainfirst')}
+            if any(x != v for x in others.values()):
+                mi, p, isb, fl = json.loads(k)
+                report(f"{('fnmatch', 'glob')[mi]}.is_magic({p!r}{' (bytes)' if isb else ''}, flags={fl:#x}) depends on the calls made before it",
+                       {'api': ('fnmatch', 'glob')[mi] + '.is_magic', 'pattern': p, 'bytes': isb, 'flags': fl,
+                        'history': 'the same questions in three orders, each order in a fresh interpreter'}, {'fwd': v}, others)
+        return n * 3
+    finally:
+        shutil.rmtree(d, ignore_errors=True)
